@@ -61,13 +61,76 @@ pub struct Shared {
     pub levels: usize,
 }
 
-pub fn run_batch(sched: &Sched, seed: u64, n: usize, f: impl Fn() + Send + Sync + 'static) {
-    match sched {
-        Sched::Random => {
+/// Scheduler wrapper that writes down every decision of the wrapped (seeded) scheduler:
+/// the explicit thread schedule of each execution, for the replay file.
+pub struct Recording<S> {
+    inner: S,
+    log: Arc<Mutex<Vec<Vec<u32>>>>,
+}
+
+impl<S: shuttle::scheduler::Scheduler> shuttle::scheduler::Scheduler for Recording<S> {
+    fn new_execution(&mut self) -> Option<shuttle::scheduler::Schedule> {
+        let r = self.inner.new_execution();
+        if r.is_some() {
+            self.log.lock().unwrap().push(Vec::new());
+        }
+        r
+    }
+    fn next_task(
+        &mut self,
+        runnable: &[&shuttle::scheduler::Task],
+        current: Option<shuttle::scheduler::TaskId>,
+        is_yielding: bool,
+    ) -> Option<shuttle::scheduler::TaskId> {
+        let c = self.inner.next_task(runnable, current, is_yielding);
+        if let Some(t) = c {
+            if let Some(l) = self.log.lock().unwrap().last_mut() {
+                l.push(usize::from(t) as u32);
+            }
+        }
+        c
+    }
+    fn next_u64(&mut self) -> u64 {
+        self.inner.next_u64()
+    }
+}
+
+pub type ScheduleLog = Arc<Mutex<Vec<Vec<u32>>>>;
+
+/// Run-length encoded schedule: "task x steps" in order.
+pub fn rle(s: &[u32]) -> String {
+    let mut out = String::new();
+    let mut i = 0;
+    while i < s.len() {
+        let mut j = i;
+        while j < s.len() && s[j] == s[i] {
+            j += 1;
+        }
+        out.push_str(&format!("{}x{} ", s[i], j - i));
+        i = j;
+    }
+    out
+}
+
+pub fn note_schedules(rec: &mut Rec, log: &ScheduleLog) {
+    for (i, s) in log.lock().unwrap().iter().enumerate() {
+        rec.note("schedule", &format!("execution {}: {} steps, task x run-length: {}", i, s.len(), rle(s)));
+    }
+}
+
+pub fn run_batch(sched: &Sched, seed: u64, n: usize, record: Option<ScheduleLog>, f: impl Fn() + Send + Sync + 'static) {
+    match (sched, record) {
+        (Sched::Random, None) => {
             Runner::new(RandomScheduler::new_from_seed(seed, n), shuttle_config()).run(f);
         }
-        Sched::Pct(d) => {
+        (Sched::Pct(d), None) => {
             Runner::new(PctScheduler::new_from_seed(seed, *d, n), shuttle_config()).run(f);
+        }
+        (Sched::Random, Some(log)) => {
+            Runner::new(Recording { inner: RandomScheduler::new_from_seed(seed, n), log }, shuttle_config()).run(f);
+        }
+        (Sched::Pct(d), Some(log)) => {
+            Runner::new(Recording { inner: PctScheduler::new_from_seed(seed, *d, n), log }, shuttle_config()).run(f);
         }
     }
 }
@@ -161,9 +224,17 @@ fn run_k<K: Kmer + Send + Sync + Serialize + DeserializeOwned + 'static>(c: &Cas
         },
         false,
     );
+    let slog: Option<ScheduleLog> = if rec.recording() { Some(Arc::new(Mutex::new(Vec::new()))) } else { None };
     {
         let (base, extra, sh) = (base.clone(), extra.clone(), sh.clone());
-        run_batch(&c.sched, c.sched_seed, c.executions, move || scenario::<K>(&base, &extra, &sh));
+        let (sched, seed, n, sl) = (c.sched.clone(), c.sched_seed, c.executions, slog.clone());
+        let r = simcore::driver::guarded(move || run_batch(&sched, seed, n, sl, move || scenario::<K>(&base, &extra, &sh)));
+        if let Some(l) = &slog {
+            note_schedules(rec, l);
+        }
+        if let Err((loc, msg)) = r {
+            return Err(Violation::new("panic", &loc, format!("uncaught panic at {}: {}", loc, msg.chars().take(300).collect::<String>())));
+        }
     }
     let s = sh.lock().unwrap();
     rec.add("executions", s.executions);
